@@ -10,8 +10,7 @@ Arguments has_lower : simpl never.
 
 (* outside the defect classes of the flags that are on *)
 Definition ts_file_plain (q : mquirks) (f : file) : bool :=
-  (negb (q_ts_test_marker_anywhere q) || Bool.eqb (ts_code_is_test (f_name f)) (ts_doc_is_test (f_name f)))
-  && forallb (fun sc => forallb (fun s => forallb (ts_lit_plain q) (s_lits s)) (sc_sites sc)) (f_scopes f).
+  negb (q_ts_test_marker_anywhere q) || Bool.eqb (ts_code_is_test (f_name f)) (ts_doc_is_test (f_name f)).
 
 Lemma ts_is_enum_app a b : ts_is_enum (a ++ b) = ts_is_enum a || ts_is_enum b.
 Proof. apply existsb_app. Qed.
@@ -59,12 +58,12 @@ Section Site.
   Qed.
 
   Lemma ts_lit_exact l :
-    In l (s_lits s) -> ts_lit_plain q l = true ->
+    In l (s_lits s) ->
     ts_site_report q cfg (ts_is_test q (f_name f))
       (mk_tssite (ts_node_type l) (lit_chars l) (ts_ctx_chain (s_ctx s) (s_name s) ++ ts_scope_chain (sc_kind sc)) (s_line s))
     = spec_lit MTs cfg (spec_file_exempt MTs f) sc s l.
   Proof.
-    intros Hin Hp. unfold site_good in Hsite.
+    intros Hin. unfold site_good in Hsite.
     apply andb_prop in Hsite. destruct Hsite as [H123 Hlits]. apply andb_prop in H123. destruct H123 as [H123 _]. apply andb_prop in H123. destruct H123 as [H12 _].
     apply andb_prop in H12. destruct H12 as [Hctx Hnm].
     rewrite forallb_forall in Hlits. specialize (Hlits l Hin).
@@ -72,7 +71,7 @@ Section Site.
     destruct (lit_is_numeric l) eqn:Hnum.
     - rewrite (ts_numeric_type l Hnum). replace (String.eqb "number" ts_number_type) with true by reflexivity. cbn [negb].
       destruct (lit_raw_numeric l Hnum) as [raw Hr].
-      rewrite (ts_lit_extract q l raw Hlits Hp Hr). unfold lit_value. rewrite Hr. cbn [option_map].
+      rewrite (ts_lit_extract q l raw Hlits Hr). unfold lit_value. rewrite Hr. cbn [option_map].
       rewrite allowed_spec, ts_is_test_spec, (ts_ctx_exempt _ _ _ Hctx Hnm).
       unfold spec_site_exempt. cbn [orb]. rewrite orb_false_r.
       destruct (nmem (norm raw) (spec_allowed cfg)), (spec_file_exempt MTs f), (ctx_is_const_def (s_ctx s)); reflexivity.
@@ -87,13 +86,11 @@ Section Site.
   Qed.
 
   Lemma ts_site_exact :
-    forallb (ts_lit_plain q) (s_lits s) = true ->
     flat_map (ts_site_report q cfg (ts_is_test q (f_name f))) (to_ts_site true (sc_kind sc) s)
     = flat_map (spec_lit MTs cfg (spec_file_exempt MTs f) sc s) (s_lits s).
   Proof.
-    intros Hp. unfold to_ts_site. rewrite flat_map_app, (flat_map_nil _ _ ts_keyword_nothing). cbn [app].
-    rewrite flat_map_map. apply flat_map_ext_in. intros l Hl. apply ts_lit_exact; [exact Hl|].
-    rewrite forallb_forall in Hp. apply Hp. exact Hl.
+    unfold to_ts_site. rewrite flat_map_app, (flat_map_nil _ _ ts_keyword_nothing). cbn [app].
+    rewrite flat_map_map. apply flat_map_ext_in. intros l Hl. apply ts_lit_exact. exact Hl.
   Qed.
 End Site.
 
@@ -102,25 +99,17 @@ End Site.
 Theorem ts_report_guarded q cfg f :
   file_good MTs f = true -> ts_file_plain q f = true -> ts_report q cfg f = spec_report MTs cfg f.
 Proof.
-  intros Hg Hp. unfold ts_file_plain in Hp. apply andb_prop in Hp. destruct Hp as [Hname Hplain].
+  intros Hg Hname. unfold ts_file_plain in Hname.
   unfold file_good in Hg. apply andb_prop in Hg. destruct Hg as [_ Hscopes].
   unfold ts_report, to_ts, spec_report. rewrite flat_map_flat_map. apply flat_map_ext_in. intros sc Hsc.
   rewrite flat_map_flat_map. apply flat_map_ext_in. intros s Hs.
-  rewrite forallb_forall in Hscopes, Hplain. specialize (Hscopes sc Hsc). specialize (Hplain sc Hsc).
+  rewrite forallb_forall in Hscopes. specialize (Hscopes sc Hsc).
   unfold scope_good in Hscopes. apply andb_prop in Hscopes. destruct Hscopes as [Hsites _].
-  rewrite forallb_forall in Hsites, Hplain.
-  apply ts_site_exact; [exact Hname | apply Hsites; exact Hs | apply Hplain; exact Hs].
+  rewrite forallb_forall in Hsites.
+  apply ts_site_exact; [exact Hname | apply Hsites; exact Hs].
 Qed.
 
-Lemma ts_plain_ideal q f :
-  q_ts_hex_e_float q = false -> q_ts_bigint_dropped q = false -> q_ts_test_marker_anywhere q = false -> ts_file_plain q f = true.
-Proof.
-  intros H1 H2 H3. unfold ts_file_plain. rewrite H3. cbn [negb orb andb].
-  rewrite forallb_forall. intros sc _. rewrite forallb_forall. intros s _. rewrite forallb_forall. intros l _.
-  unfold ts_lit_plain. destruct l; try reflexivity. rewrite H1, H2. unfold ts_int_guard. destruct r; reflexivity.
-Qed.
-
+(* the prefix test and the suffix stripping may be the source's own (flags on) or the property's (flags off) *)
 Theorem ts_report_exact q cfg f :
-  q_ts_hex_e_float q = false -> q_ts_bigint_dropped q = false -> q_ts_test_marker_anywhere q = false ->
-  file_good MTs f = true -> ts_report q cfg f = spec_report MTs cfg f.
-Proof. intros H1 H2 H3 Hg. apply ts_report_guarded; [exact Hg | apply ts_plain_ideal; assumption]. Qed.
+  q_ts_test_marker_anywhere q = false -> file_good MTs f = true -> ts_report q cfg f = spec_report MTs cfg f.
+Proof. intros H3 Hg. apply ts_report_guarded; [exact Hg | unfold ts_file_plain; rewrite H3; reflexivity]. Qed.
